@@ -603,6 +603,14 @@ impl<'tcx> Dumper<'tcx> {
                     let tenv = TypingEnv::post_analysis(tcx, did);
                     self.queue.push_back((inst, tenv, 0));
                 }
+                DefKind::InlineConst => {
+                    // `const { .. }` blocks: their value is decided per instantiation; the body is dumped so that an
+                    // analysis can read a guard written as an inline constant
+                    let args = ty::GenericArgs::identity_for_item(tcx, did);
+                    let inst = Instance::new_raw(did, args);
+                    let tenv = TypingEnv::post_analysis(tcx, did);
+                    self.queue.push_back((inst, tenv, 0));
+                }
                 _ => {}
             }
         }
